@@ -1,0 +1,27 @@
+//go:build verif
+
+package routing
+
+import (
+	"lunar/engine/actions"
+	lunar_messages "lunar/engine/messages"
+
+	"github.com/negasus/haproxy-spoe-go/action"
+)
+
+// VerifGetSPOEReqActions exposes getSPOEReqActions (the fold of the request
+// actions of a flow and its SPOE encoding) to the verification harness.
+func VerifGetSPOEReqActions(
+	args lunar_messages.OnRequest,
+	lunarActions []actions.ReqLunarAction,
+) action.Actions {
+	return getSPOEReqActions(args, lunarActions)
+}
+
+// VerifGetSPOERespActions exposes getSPOERespActions to the verification harness.
+func VerifGetSPOERespActions(
+	args lunar_messages.OnResponse,
+	lunarActions []actions.RespLunarAction,
+) action.Actions {
+	return getSPOERespActions(args, lunarActions)
+}
